@@ -1,6 +1,6 @@
 (* C32 -- hy.mangle always yields a canonical Python identifier.
    Statements only; proofs are in Mangle/MangleProofs.v. *)
-From HyV Require Import Base.Text Gen.MangleTables Mangle.Model Mangle.Facts Mangle.MangleProofs Mangle.Toy.
+From HyV Require Import Base.Text Gen.MangleTables Mangle.Model Mangle.Facts Mangle.MangleProofs Mangle.Toy Mangle.Shape.
 
 (* For every Unicode oracle with the listed facts and every non-empty name that
    does not take the dotted branch (no dot, or nothing but dots): the result is
